@@ -5,5 +5,5 @@ P=$1; PROP=$2; TIER=${3:-quick}
 WT=/var/tmp/evalwt-$$
 git -C /repo worktree add -q --detach $WT HEAD || exit 2
 git -C $WT apply $P || { echo "patch does not apply"; git -C /repo worktree remove --force $WT; exit 2; }
-cd /verif; XCP_EVIDENCE_DIR=/var/tmp/xcp-verif-eval/evidence XCP_REPO=$WT ./check $PROP --tier $TIER 2>&1 | grep -v "^\[xv\].* ok \|^KNOWN\|^NOTE" | tail -n ${LINES_OUT:-4} | cut -c1-300
+cd /verif; XCP_VERIF_SCRATCH=/var/tmp/xcp-verif-eval/scratch XCP_EVIDENCE_DIR=/var/tmp/xcp-verif-eval/evidence XCP_REPO=$WT ./check $PROP --tier $TIER 2>&1 | grep -v "^\[xv\].* ok \|^KNOWN\|^NOTE" | tail -n ${LINES_OUT:-4} | cut -c1-300
 git -C /repo worktree remove --force $WT
